@@ -244,3 +244,13 @@ Definition dsteps_total (sty : style) (cols : Z) (text : list Z) : Z :=
 (* the index the emitter gives to a call site: how many sites of the same LCD precede it *)
 Definition count_name (name : Z) (sites : list site) : Z :=
   zlen (filter (fun s => fst s =? name) sites).
+
+(* what a batch of writes does to any well-formed cell matrix: nothing, or the animation's row
+   becomes the frame [c blanks, s, blanks] (exactly [cols] cells) whatever it held before, and no
+   other row changes *)
+Definition dframe_drawn (cols rows row : Z) (evs : list dev) : Prop :=
+  evs = [] \/ exists c s, 0 <= c /\ c + zlen s <= cols /\
+    forall m, matrix_wf cols rows m ->
+      get_row row (apply_devs evs m) = frame cols c s /\ zlen (frame cols c s) = cols /\
+      forall r', 0 <= r' -> r' <> row -> get_row r' (apply_devs evs m) = get_row r' m.
+
